@@ -415,7 +415,7 @@ theorem mem_strsOf {f : Nat} {rs : List Row} {y : String} (h : y ∈ strsOf f rs
 /-- `snapshot` keeps the represented rows when no MIN/MAX cell is blank and the group is not
 empty. -/
 theorem prep_snapshot (m : Metric) (st : St) (rs : List Row) (h : Rep m st rs)
-    (hwf : ∀ r ∈ rs, RowWF r)
+    (hwf : ∀ f, m.minMaxField = some f → ∀ r ∈ rs, RowWF r)
     (hnb : ∀ f, m.minMaxField = some f → ∀ r ∈ rs, nonNull r f = true) (hne : rs ≠ []) :
     PRep m (snapshot st) rs := by
   have key : ∀ (lt : String → String → Bool) (f : Nat), m.minMaxField = some f →
@@ -446,7 +446,7 @@ theorem prep_snapshot (m : Metric) (st : St) (rs : List Row) (h : Rep m st rs)
     | some y =>
       refine ⟨y, rfl, ?_⟩
       obtain ⟨r', hr', c, hc, hcn, hcs⟩ := mem_strsOf (bestOf_mem hb)
-      have := hwf r' hr' f c hc y hcs
+      have := hwf f hf r' hr' f c hc y hcs
       rw [hcn] at this
       exact this.symm
   cases m with
@@ -845,97 +845,6 @@ theorem sinkKey_key (p : Plan) (tr : TRow) : (sinkKey p tr).key = rowKey p tr.2 
     simp [rowKey, hg', hb']
   · rfl
 
-/-! ### `into_partial` when the flow takes one path -/
-
-/-- every batch of the flow takes the same path through the sink (always true with BY / PER) -/
-def NoSplit (p : Plan) (fl : List TRow) : Prop :=
-  ∀ tr ∈ fl, ∀ tr' ∈ fl, (sinkKey p tr).zero = (sinkKey p tr').zero
-
-theorem foldl_upsert_const {ι : Type} (key : ι → Key) (g : ι → Option (List St) → List St) (es : List ι) :
-    ∀ (acc : AList Key), (es.map key).Nodup → (∀ e ∈ es, key e ∉ acc.keys) →
-      es.foldl (fun acc e => acc.upsert (key e) (g e)) acc = acc ++ es.map fun e => (key e, g e none) := by
-  induction es with
-  | nil => intro acc _ _; simp
-  | cons e es ih =>
-    intro acc hn hd
-    simp only [List.map_cons, List.nodup_cons] at hn
-    simp only [List.foldl_cons]
-    rw [AList.upsert_of_not_mem _ _ _ (hd e (by simp))]
-    rw [ih _ hn.2]
-    · simp
-    · intro e' he'
-      simp only [AList.keys, List.map_append, List.map_cons, List.map_nil, List.mem_append,
-        List.mem_singleton, not_or]
-      refine ⟨hd e' (by simp [he']), ?_⟩
-      intro heq
-      exact hn.1 (heq ▸ List.mem_map.mpr ⟨e', he', rfl⟩)
-
-theorem intoPartial_noSplit (p : Plan) (zl : Option Bool) (fl : List TRow) (h : NoSplit p fl) :
-    intoPartial zl (sinkAgg p fl) = (sinkAgg p fl).map fun e => (e.1.key, e.2.map snapshot) := by
-  have hz : ∀ e ∈ sinkAgg p fl, ∀ e' ∈ sinkAgg p fl, e.1.zero = e'.1.zero := by
-    intro e he e' he'
-    obtain ⟨tr, htr, h1⟩ := (sink_mem_keys p fl e.1).mp (List.mem_map.mpr ⟨e, he, rfl⟩)
-    obtain ⟨tr', htr', h2⟩ := (sink_mem_keys p fl e'.1).mp (List.mem_map.mpr ⟨e', he', rfl⟩)
-    rw [← h1, ← h2]; exact h tr htr tr' htr'
-  have hnd : ((sinkAgg p fl).map fun e => e.1.key).Nodup := by
-    have h0 : (sinkAgg p fl).Pairwise fun a b => a.1 ≠ b.1 := by
-      have := sink_nodup_keys p fl
-      simp only [AList.keys, List.Nodup, List.pairwise_map] at this
-      exact this
-    have h1 : (sinkAgg p fl).Pairwise fun a b => a.1.key ≠ b.1.key := by
-      refine h0.imp_of_mem ?_
-      intro a b ha hb hab hk
-      apply hab
-      have := hz a ha b hb
-      cases ha1 : a.1; cases hb1 : b.1
-      simp_all
-    simp only [List.Nodup, List.pairwise_map]
-    exact h1
-  cases zl with
-  | none =>
-    unfold intoPartial
-    simp only []
-    have := foldl_upsert_const (fun e : SinkKey × List St => e.1.key)
-      (fun e o => mergeOpt o (e.2.map snapshot))
-      (sinkAgg p fl) [] hnd (by simp [AList.keys])
-    simpa [mergeOpt] using this
-  | some zl =>
-    have hord : ∀ t : AList SinkKey, (∀ e ∈ t, ∀ e' ∈ t, e.1.zero = e'.1.zero) →
-        t.filter (fun e => e.1.zero != zl) ++ t.filter (fun e => e.1.zero == zl) = t := by
-      intro t ht
-      cases t with
-      | nil => rfl
-      | cons e0 t =>
-        by_cases hzz : e0.1.zero = zl
-        · have h1 : (e0 :: t).filter (fun e => e.1.zero != zl) = [] := by
-            rw [List.filter_eq_nil_iff]
-            intro e he
-            have := ht e he e0 (by simp)
-            simp [this, hzz]
-          have h2 : (e0 :: t).filter (fun e => e.1.zero == zl) = e0 :: t := by
-            rw [List.filter_eq_self]
-            intro e he
-            have := ht e he e0 (by simp)
-            simp [this, hzz]
-          rw [h1, h2]; rfl
-        · have h1 : (e0 :: t).filter (fun e => e.1.zero != zl) = e0 :: t := by
-            rw [List.filter_eq_self]
-            intro e he
-            have := ht e he e0 (by simp)
-            simp [this, hzz]
-          have h2 : (e0 :: t).filter (fun e => e.1.zero == zl) = [] := by
-            rw [List.filter_eq_nil_iff]
-            intro e he
-            have := ht e he e0 (by simp)
-            simp [this, hzz]
-          rw [h1, h2]; simp
-    unfold intoPartial
-    simp only []
-    rw [hord _ hz]
-    have := foldl_upsert_const (fun e : SinkKey × List St => e.1.key) (fun e _ => e.2.map snapshot)
-      (sinkAgg p fl) [] hnd (by simp [AList.keys])
-    simpa using this
-
 /-! ### state vectors -/
 
 /-- the state vector `sts` of a group represents the rows `rs`, metric by metric -/
@@ -983,50 +892,65 @@ theorem vrep_out (p : Plan) {sts : List St} {rs : List Row} (h : VRep p sts rs) 
   rw [zipWith_map_self]
   exact mapM_id_some _ _ _ fun m hm => out_of_prep m _ _ (hg m hm)
 
-/-! ### the coordinator -/
+/-! ### partial tables and the coordinator -/
 
-/-- coordinator step for one wire row -/
-def mstep (e : Key × List St) (o : Option (List St)) : List St :=
-  match o with
-  | none => e.2
-  | some cur => mergeVec cur e.2
+/-- coordinator / `into_partial` step: merge the states `v` into the entry, or insert them -/
+def mstep (e : Key × List St) (o : Option (List St)) : List St := mergeOpt o e.2
 
 theorem coordinate_eq_gfold (p : Plan) (partials : List (AList Key)) :
     coordinate p partials = gfold (fun e => wireKey p e.1) mstep [] partials.flatten := by
   simp only [coordinate, gfold, List.foldl_flatten]
   rfl
 
-/-- the sink groups of all flows, in the order the coordinator sees them -/
-def pairsOf (p : Plan) (flows : List (List TRow)) : List (List TRow × SinkKey) :=
-  flows.flatMap fun fl => (sinkAgg p fl).keys.map fun k => (fl, k)
+/-- hypotheses under which a flow's groups survive `snapshot` faithfully: for the fields of
+MIN / MAX metrics the cells are as the converter builds them (always true, `tagFlow_wf`) and never
+blank. Plans without MIN / MAX satisfy it trivially (`goodFlow_of_no_minmax`). -/
+structure GoodFlow (p : Plan) (fl : List TRow) : Prop where
+  ok : ∀ m ∈ p.metrics, ∀ f, m.minMaxField = some f → ∀ tr ∈ fl, RowWF tr.2 ∧ nonNull tr.2 f = true
+
+def ORep (p : Plan) (o : Option (List St)) (rs : List Row) : Prop :=
+  match o with
+  | none => rs = []
+  | some sts => VRep p sts rs ∧ rs ≠ []
+
+/-- merging a chain of entries, each representing its own non-empty row list, represents the
+concatenation -/
+theorem chain_orep {ι : Type} (p : Plan) (entry : ι → List St) (rows : ι → List Row) (items : List ι)
+    (hgood : ∀ i ∈ items, VRep p (entry i) (rows i) ∧ rows i ≠ []) :
+    ∀ (o : Option (List St)) (rs0 : List Row), ORep p o rs0 →
+      ORep p (chain (fun i o => mergeOpt o (entry i)) o items) (rs0 ++ items.flatMap rows) := by
+  induction items with
+  | nil => intro o rs0 h; simpa [chain] using h
+  | cons i items ih =>
+    intro o rs0 h
+    obtain ⟨hv, hne⟩ := hgood i (by simp)
+    simp only [chain, List.foldl_cons, List.flatMap_cons] at ih ⊢
+    rw [← List.append_assoc]
+    apply ih (fun j hj => hgood j (by simp [hj]))
+    cases o with
+    | none =>
+      simp only [ORep] at h; subst h
+      simp only [ORep, mergeOpt, List.nil_append]
+      exact ⟨hv, hne⟩
+    | some cur =>
+      simp only [ORep] at h
+      simp only [ORep, mergeOpt]
+      exact ⟨vrep_merge p h.1 hv, by simp [hne]⟩
+
+/-- the sink groups of one flow -/
+def flowPairs (p : Plan) (fl : List TRow) : List (List TRow × SinkKey) :=
+  (sinkAgg p fl).keys.map fun k => (fl, k)
 
 /-- rows of a sink group (tags dropped) -/
 def pairRows (p : Plan) (pr : List TRow × SinkKey) : List Row := (rowsOf p pr.1 pr.2).map (·.2)
 
-/-- the partial-table entry of a sink group -/
+/-- the snapshotted entry of a sink group -/
 def entryOf (p : Plan) (pr : List TRow × SinkKey) : Key × List St :=
   (pr.2.key, p.metrics.map fun m => snapshot (fstate m (pairRows p pr)))
 
-theorem map_zipIdx_const {α β : Type} (l : List α) (F : α → Nat → β) (G : α → β)
-    (h : ∀ a ∈ l, ∀ i, F a i = G a) : ∀ n, (l.zipIdx n).map (fun x => F x.1 x.2) = l.map G := by
-  induction l with
-  | nil => intro n; rfl
-  | cons a l ih =>
-    intro n
-    simp only [List.zipIdx_cons, List.map_cons]
-    rw [h a (by simp), ih (fun b hb => h b (by simp [hb]))]
-
-theorem partials_eq (p : Plan) (zl : Nat → Option Bool) (flows : List (List TRow)) (h : ∀ fl ∈ flows, NoSplit p fl) :
-    (flows.zipIdx.map fun x => intoPartial (zl x.2) (sinkAgg p x.1)).flatten =
-      (pairsOf p flows).map (entryOf p) := by
-  rw [map_zipIdx_const flows (fun fl i => intoPartial (zl i) (sinkAgg p fl))
-    (fun fl => (sinkAgg p fl).map fun e => (e.1.key, e.2.map snapshot))
-    (fun fl hfl i => intoPartial_noSplit p (zl i) fl (h fl hfl)) 0]
-  rw [pairsOf, List.map_flatMap, List.flatMap_def]
-  congr 1
-  apply List.map_congr_left
-  intro fl hfl
-  simp only [AList.keys, List.map_map]
+theorem sink_snap_eq (p : Plan) (fl : List TRow) :
+    ((sinkAgg p fl).map fun e => (e.1.key, e.2.map snapshot)) = (flowPairs p fl).map (entryOf p) := by
+  simp only [flowPairs, AList.keys, List.map_map]
   apply List.map_congr_left
   intro e he
   obtain ⟨k, sts⟩ := e
@@ -1035,30 +959,22 @@ theorem partials_eq (p : Plan) (zl : Nat → Option Bool) (flows : List (List TR
   rw [hs, List.map_map]
   rfl
 
-theorem runFlows_get (p : Plan) (zl : Nat → Option Bool) (flows : List (List TRow)) (h : ∀ fl ∈ flows, NoSplit p fl)
-    (fk : Key) :
-    (runFlows p zl flows).get fk =
-      chain (fun pr => mstep (entryOf p pr)) none
-        ((pairsOf p flows).filter fun pr => wireKey p pr.2.key = fk) := by
-  unfold runFlows
-  rw [coordinate_eq_gfold, partials_eq p zl flows h, gfold_map, get_gfold]
+theorem intoPartial_eq_gfold (p : Plan) (fl : List TRow) :
+    intoPartial (sinkAgg p fl) =
+      gfold (fun pr => pr.2.key) (fun pr => mstep (entryOf p pr)) [] (flowPairs p fl) := by
+  have h1 : intoPartial (sinkAgg p fl) =
+      gfold (fun e : Key × List St => e.1) mstep []
+        ((sinkAgg p fl).map fun e => (e.1.key, e.2.map snapshot)) := by
+    simp only [intoPartial, gfold, List.foldl_map]
+    rfl
+  rw [h1, sink_snap_eq, gfold_map]
   rfl
 
-/-- hypotheses under which a flow's groups survive `snapshot` faithfully -/
-structure GoodFlow (p : Plan) (fl : List TRow) : Prop where
-  wf : ∀ tr ∈ fl, RowWF tr.2
-  noBlank : ∀ m ∈ p.metrics, ∀ f, m.minMaxField = some f → ∀ tr ∈ fl, nonNull tr.2 f = true
-
-def ORep (p : Plan) (o : Option (List St)) (rs : List Row) : Prop :=
-  match o with
-  | none => rs = []
-  | some sts => VRep p sts rs ∧ rs ≠ []
-
-theorem pairRows_ne_nil (p : Plan) {flows : List (List TRow)} {pr : List TRow × SinkKey}
-    (h : pr ∈ pairsOf p flows) : pr.1 ∈ flows ∧ pairRows p pr ≠ [] := by
-  simp only [pairsOf, List.mem_flatMap, List.mem_map] at h
-  obtain ⟨fl, hfl, k, hk, rfl⟩ := h
-  refine ⟨hfl, ?_⟩
+theorem pairRows_ne_nil (p : Plan) {fl : List TRow} {pr : List TRow × SinkKey}
+    (h : pr ∈ flowPairs p fl) : pr.1 = fl ∧ pairRows p pr ≠ [] := by
+  simp only [flowPairs, List.mem_map] at h
+  obtain ⟨k, hk, rfl⟩ := h
+  refine ⟨rfl, ?_⟩
   obtain ⟨tr, htr, hkey⟩ := (sink_mem_keys p fl k).mp hk
   have : tr ∈ rowsOf p fl k := by simp [rowsOf, htr, hkey]
   intro h0
@@ -1075,32 +991,13 @@ theorem entry_vrep (p : Plan) (pr : List TRow × SinkKey) (hg : GoodFlow p pr.1)
     obtain ⟨tr, ⟨htr, _⟩, rfl⟩ := hr
     exact ⟨tr, htr, rfl⟩
   apply prep_snapshot m _ _ (rep_fstate m _)
-  · intro r hr; obtain ⟨tr, htr, rfl⟩ := hsub r hr; exact hg.wf tr htr
-  · intro f hf r hr; obtain ⟨tr, htr, rfl⟩ := hsub r hr; exact hg.noBlank m hm f hf tr htr
+  · intro f hf r hr; obtain ⟨tr, htr, rfl⟩ := hsub r hr; exact (hg.ok m hm f hf tr htr).1
+  · intro f hf r hr; obtain ⟨tr, htr, rfl⟩ := hsub r hr; exact (hg.ok m hm f hf tr htr).2
   · exact hne
 
-theorem chain_orep (p : Plan) (prs : List (List TRow × SinkKey))
-    (hgood : ∀ pr ∈ prs, GoodFlow p pr.1 ∧ pairRows p pr ≠ []) :
-    ∀ (o : Option (List St)) (rs0 : List Row), ORep p o rs0 →
-      ORep p (chain (fun pr => mstep (entryOf p pr)) o prs) (rs0 ++ prs.flatMap (pairRows p)) := by
-  induction prs with
-  | nil => intro o rs0 h; simpa [chain] using h
-  | cons pr prs ih =>
-    intro o rs0 h
-    obtain ⟨hg, hne⟩ := hgood pr (by simp)
-    have hv := entry_vrep p pr hg hne
-    simp only [chain, List.foldl_cons, List.flatMap_cons] at ih ⊢
-    rw [← List.append_assoc]
-    apply ih (fun pr' h' => hgood pr' (by simp [h']))
-    cases o with
-    | none =>
-      simp only [ORep] at h; subst h
-      simp only [ORep, mstep, List.nil_append]
-      exact ⟨hv, hne⟩
-    | some cur =>
-      simp only [ORep] at h
-      simp only [ORep, mstep]
-      exact ⟨vrep_merge p h.1 hv, by simp [hne]⟩
+/-- rows of the flow whose (bucket, groups) key is `pk` (tags dropped) -/
+def flowRows (p : Plan) (fl : List TRow) (pk : Key) : List Row :=
+  (fl.filter fun tr => (sinkKey p tr).key = pk).map (·.2)
 
 /-! ### regrouping rows by key is a permutation -/
 
@@ -1168,19 +1065,91 @@ theorem flatMap_filter_perm' {ρ κ : Type} [DecidableEq κ] (key : ρ → κ) (
   rw [h2] at h1
   exact h1
 
-theorem pairs_rows_perm (p : Plan) (fk : Key) (flows : List (List TRow)) :
-    (((pairsOf p flows).filter fun pr => wireKey p pr.2.key = fk).flatMap (pairRows p)).Perm
+theorem partial_nodup_keys (p : Plan) (fl : List TRow) : (intoPartial (sinkAgg p fl)).keys.Nodup := by
+  rw [intoPartial_eq_gfold]
+  exact nodup_keys_gfold _ _ _ [] List.nodup_nil
+
+theorem partial_mem_keys (p : Plan) (fl : List TRow) (pk : Key) :
+    pk ∈ (intoPartial (sinkAgg p fl)).keys ↔ ∃ tr ∈ fl, (sinkKey p tr).key = pk := by
+  rw [intoPartial_eq_gfold, mem_keys_gfold]
+  have h0 : ¬ pk ∈ AList.keys ([] : AList Key) := by simp [AList.keys]
+  constructor
+  · rintro (h | ⟨pr, hpr, rfl⟩)
+    · exact absurd h h0
+    · simp only [flowPairs, List.mem_map] at hpr
+      obtain ⟨k, hk, rfl⟩ := hpr
+      obtain ⟨tr, htr, h⟩ := (sink_mem_keys p fl k).mp hk
+      exact ⟨tr, htr, by rw [h]⟩
+  · rintro ⟨tr, htr, rfl⟩
+    refine Or.inr ⟨(fl, sinkKey p tr), ?_, rfl⟩
+    simp only [flowPairs, List.mem_map]
+    exact ⟨_, (sink_mem_keys p fl _).mpr ⟨tr, htr, rfl⟩, rfl⟩
+
+/-- every entry of a flow's partial table represents exactly the flow's rows under its key —
+also when two sink groups (columnar and row path) were merged into it -/
+theorem partial_entry (p : Plan) (fl : List TRow) (hg : GoodFlow p fl) {pk : Key} {sts : List St}
+    (h : (pk, sts) ∈ intoPartial (sinkAgg p fl)) :
+    VRep p sts (flowRows p fl pk) ∧ flowRows p fl pk ≠ [] := by
+  have hget := AList.get_of_mem _ (partial_nodup_keys p fl) h
+  rw [intoPartial_eq_gfold, get_gfold] at hget
+  have hgood : ∀ pr ∈ (flowPairs p fl).filter (fun pr => pr.2.key = pk),
+      VRep p (entryOf p pr).2 (pairRows p pr) ∧ pairRows p pr ≠ [] := by
+    intro pr hpr
+    obtain ⟨h1, h2⟩ := pairRows_ne_nil p (List.mem_filter.mp hpr).1
+    exact ⟨entry_vrep p pr (h1 ▸ hg) h2, h2⟩
+  have ho := chain_orep p (fun pr => (entryOf p pr).2) (pairRows p) _ hgood none [] rfl
+  have hc : chain (fun i o => mergeOpt o (entryOf p i).2) none
+      ((flowPairs p fl).filter fun pr => pr.2.key = pk) = some sts := hget
+  rw [hc] at ho
+  simp only [ORep, List.nil_append] at ho
+  have hperm : (((flowPairs p fl).filter fun pr => pr.2.key = pk).flatMap (pairRows p)).Perm
+      (flowRows p fl pk) := by
+    simp only [flowPairs, List.filter_map, List.flatMap_map, flowRows]
+    have h1 := flatMap_filter_perm' (sinkKey p) (fun k => decide (k.key = pk)) fl
+      (sinkAgg p fl).keys (sink_nodup_keys p fl)
+      (fun tr htr => (sink_mem_keys p fl _).mpr ⟨tr, htr, rfl⟩)
+    have h2 := h1.map (fun tr : TRow => tr.2)
+    rw [List.map_flatMap] at h2
+    exact h2
+  refine ⟨vrep_perm p hperm ho.1, ?_⟩
+  intro h0
+  rw [h0] at hperm
+  exact ho.2 hperm.eq_nil
+
+/-- the partial-table entries of all flows, in the order the coordinator sees them -/
+def itemsOf (p : Plan) (flows : List (List TRow)) : List (List TRow × (Key × List St)) :=
+  flows.flatMap fun fl => (intoPartial (sinkAgg p fl)).map fun e => (fl, e)
+
+theorem runFlows_get (p : Plan) (flows : List (List TRow)) (fk : Key) :
+    (runFlows p flows).get fk =
+      chain (fun it o => mergeOpt o it.2.2) none
+        ((itemsOf p flows).filter fun it => wireKey p it.2.1 = fk) := by
+  unfold runFlows
+  have h1 : (flows.map fun fl => intoPartial (sinkAgg p fl)).flatten = (itemsOf p flows).map (·.2) := by
+    rw [itemsOf, List.map_flatMap, List.flatMap_def]
+    congr 1
+    apply List.map_congr_left
+    intro fl _
+    rw [List.map_map]
+    have : ((fun x : List TRow × (Key × List St) => x.2) ∘ fun e => (fl, e)) = id := rfl
+    rw [this, List.map_id]
+  rw [coordinate_eq_gfold, h1, gfold_map, get_gfold]
+  rfl
+
+theorem items_rows_perm (p : Plan) (fk : Key) (flows : List (List TRow)) :
+    (((itemsOf p flows).filter fun it => wireKey p it.2.1 = fk).flatMap
+        fun it => flowRows p it.1 it.2.1).Perm
       ((flows.flatten.map (·.2)).filter fun r => finalKey p r = fk) := by
   induction flows with
-  | nil => simp [pairsOf]
+  | nil => simp [itemsOf]
   | cons fl fls ih =>
-    simp only [pairsOf, List.flatMap_cons, List.filter_append, List.flatMap_append, List.flatten_cons,
+    simp only [itemsOf, List.flatMap_cons, List.filter_append, List.flatMap_append, List.flatten_cons,
       List.map_append] at ih ⊢
     refine List.Perm.append ?_ ih
     rw [List.filter_map, List.flatMap_map]
-    have h1 := flatMap_filter_perm' (sinkKey p) (fun k => decide (wireKey p k.key = fk)) fl
-      (sinkAgg p fl).keys (sink_nodup_keys p fl)
-      (fun tr htr => (sink_mem_keys p fl _).mpr ⟨tr, htr, rfl⟩)
+    have h1 := flatMap_filter_perm' (fun tr => (sinkKey p tr).key) (fun k => decide (wireKey p k = fk)) fl
+      (intoPartial (sinkAgg p fl)).keys (partial_nodup_keys p fl)
+      (fun tr htr => (partial_mem_keys p fl _).mpr ⟨tr, htr, rfl⟩)
     have h2 := h1.map (fun tr : TRow => tr.2)
     rw [List.map_flatMap] at h2
     rw [List.filter_map]
@@ -1191,30 +1160,34 @@ theorem pairs_rows_perm (p : Plan) (fk : Key) (flows : List (List TRow)) :
       simp only [Function.comp, finalKey, sinkKey_key]
       congr
     rw [e] at h2
+    simp only [AList.keys, List.filter_map, List.flatMap_map] at h2
     exact h2
 
-/-- **Main table-level result.** For flows that each take one path through the sink and whose
-MIN/MAX cells are never blank, the coordinator's entry for a final key is present exactly when
-some row has that key, and its reported cells are the reference folds over those rows. -/
-theorem runFlows_spec (p : Plan) (zl : Nat → Option Bool) (flows : List (List TRow))
-    (hns : ∀ fl ∈ flows, NoSplit p fl) (hg : ∀ fl ∈ flows, GoodFlow p fl) (fk : Key) :
-    match (runFlows p zl flows).get fk with
+/-- **Main table-level result.** For flows whose MIN/MAX cells are never blank, the coordinator's
+entry for a final key is present exactly when some row has that key, and its reported cells are
+the reference folds over those rows — whatever the split over flows, batches and sink paths. -/
+theorem runFlows_spec (p : Plan) (flows : List (List TRow))
+    (hg : ∀ fl ∈ flows, GoodFlow p fl) (fk : Key) :
+    match (runFlows p flows).get fk with
     | none => ((flows.flatten.map (·.2)).filter fun r => finalKey p r = fk) = []
     | some sts =>
       ((flows.flatten.map (·.2)).filter fun r => finalKey p r = fk) ≠ [] ∧
         outRow p sts = some (p.metrics.map fun m =>
           spec m ((flows.flatten.map (·.2)).filter fun r => finalKey p r = fk)) := by
-  rw [runFlows_get p zl flows hns fk]
-  have hgood : ∀ pr ∈ (pairsOf p flows).filter (fun pr => wireKey p pr.2.key = fk),
-      GoodFlow p pr.1 ∧ pairRows p pr ≠ [] := by
-    intro pr hpr
-    obtain ⟨h1, h2⟩ := pairRows_ne_nil p (List.mem_filter.mp hpr).1
-    exact ⟨hg _ h1, h2⟩
-  have ho := chain_orep p _ hgood none [] rfl
-  have hp := pairs_rows_perm p fk flows
+  rw [runFlows_get p flows fk]
+  have hgood : ∀ it ∈ (itemsOf p flows).filter (fun it => wireKey p it.2.1 = fk),
+      VRep p it.2.2 (flowRows p it.1 it.2.1) ∧ flowRows p it.1 it.2.1 ≠ [] := by
+    intro it hit
+    have hmem := (List.mem_filter.mp hit).1
+    simp only [itemsOf, List.mem_flatMap, List.mem_map] at hmem
+    obtain ⟨fl, hfl, e, he, rfl⟩ := hmem
+    exact partial_entry p fl (hg fl hfl) he
+  have ho := chain_orep p (fun it : List TRow × (Key × List St) => it.2.2)
+    (fun it => flowRows p it.1 it.2.1) _ hgood none [] rfl
+  have hp := items_rows_perm p fk flows
   simp only [List.nil_append] at ho
-  cases hc : chain (fun pr => mstep (entryOf p pr)) none
-      ((pairsOf p flows).filter fun pr => wireKey p pr.2.key = fk) with
+  cases hc : chain (fun it o => mergeOpt o it.2.2) none
+      ((itemsOf p flows).filter fun it => wireKey p it.2.1 = fk) with
   | none =>
     rw [hc] at ho
     simp only [ORep] at ho
@@ -1243,18 +1216,18 @@ def allRows (flows : List (List TRow)) : List Row := flows.flatten.map (·.2)
 def groupRows (p : Plan) (flows : List (List TRow)) (fk : Key) : List Row :=
   (allRows flows).filter fun r => finalKey p r = fk
 
-theorem reportAt_spec (p : Plan) (zl : Nat → Option Bool) (flows : List (List TRow))
-    (hns : ∀ fl ∈ flows, NoSplit p fl) (hg : ∀ fl ∈ flows, GoodFlow p fl) (fk : Key) :
-    reportAt p (runFlows p zl flows) fk =
+theorem reportAt_spec (p : Plan) (flows : List (List TRow))
+    (hg : ∀ fl ∈ flows, GoodFlow p fl) (fk : Key) :
+    reportAt p (runFlows p flows) fk =
       if retained p fk && !(groupRows p flows fk).isEmpty then
         some (p.metrics.map fun m => spec m (groupRows p flows fk))
       else none := by
-  have h := runFlows_spec p zl flows hns hg fk
+  have h := runFlows_spec p flows hg fk
   unfold reportAt groupRows allRows
   cases hr : retained p fk
   · simp
   · simp only [if_true, Bool.true_and]
-    cases hget : (runFlows p zl flows).get fk with
+    cases hget : (runFlows p flows).get fk with
     | none =>
       rw [hget] at h
       simp only [] at h
@@ -1294,15 +1267,10 @@ theorem tagFlow_wf (p : Plan) (w : Nat) (batches : List (List (List Scalar))) :
   obtain ⟨b, _, _, ⟨r, _, rfl⟩, rfl⟩ := htr
   exact convertRow_wf _ _
 
-theorem noSplit_of_grouping (p : Plan) (fl : List TRow) (h : p.hasGrouping = true) : NoSplit p fl := by
-  intro tr _ tr' _
-  simp [sinkKey, h]
-
-theorem noSplit_of_same_tag (p : Plan) (fl : List TRow) (h : ∀ tr ∈ fl, ∀ tr' ∈ fl, tr.1 = tr'.1) :
-    NoSplit p fl := by
-  intro tr htr tr' htr'
-  simp only [sinkKey, h tr htr tr' htr']
-  split <;> rfl
+/-- a plan without MIN / MAX needs no hypothesis on the data -/
+theorem goodFlow_of_no_minmax (p : Plan) (fl : List TRow) (h : ∀ m ∈ p.metrics, m.minMaxField = none) :
+    GoodFlow p fl :=
+  ⟨fun m hm f hf => by rw [h m hm] at hf; cases hf⟩
 
 theorem limitRows_length {α : Type} (off lim : Option Nat) (rows : List α) :
     (limitRows off lim rows).length =
